@@ -322,7 +322,9 @@ def step (d : DState) (args : List String) : DState × String :=
     | some now, some hs =>
       let (s1, pops) := applyHints s now hs
       ({ s := some s1, popped := pops.reverse ++ d.popped },
-        if pops.isEmpty then "ok" else "ok pop " ++ ",".intercalate (pops.map (fun p => toString p.id)))
+        -- EXT_FDT = 192 | V(4 bit) | instance id (20 bit): the version nibble as the wire shows it (V = 2, RFC 6726)
+        if pops.isEmpty then "ok"
+        else "ok pop " ++ ",".intercalate (pops.map (fun p => s!"{p.id % 2^20}v{(2 + p.id / 2^20) % 16}")))
     | _, _ => (d, "bad-op")
   | ["inst", id] =>
     match nat? id with
